@@ -95,6 +95,35 @@ def concrete_best(inp):
     return {"ok": True, "detail": "best-of holds on the battery", "inputs": inp}
 
 
+def concrete_vle(inp):
+    """fit_vle on the repository's own VLE data: the returned parameters must not have a larger error than any single method"""
+    import os
+    import warnings
+    from ..core import REPO
+    bad = []
+    with warnings.catch_warnings():
+        warnings.simplefilter("ignore")
+        for name in ("MeOH_DMC", "H2O_EtOH"):
+            path = os.path.join(REPO, "tests", "VLE_data", "binary", name + ".csv")
+            if not os.path.exists(path):
+                continue
+            data = uqf.VLEPoints.from_csv(path)
+            n0 = len(data.data)
+            best = uqf.fit_vle(data)
+            if len(data.data) != n0:
+                bad.append("fit_vle changed the caller's VLE points")
+            arr = lambda p: [p.alpha_12, p.alpha_21, p.beta_12, p.beta_21, p.z]
+            eb = float(uqf.objective(data, arr(best)))
+            for alg in uqf.FITTING_ALGS:
+                e = float(uqf.objective(data, arr(uqf.fit_vle(data, method=alg))))
+                if eb > e * (1 + 1e-9) + 1e-12:
+                    bad.append("%s: fit_vle() returns error %.6f, method %s alone reaches %.6f" % (name, eb, alg, e))
+                    break
+            if bad:
+                break
+    return {"ok": not bad, "detail": "; ".join(bad[:2]), "inputs": inp}
+
+
 class FitStub:
     """deterministic uninterpreted optimiser: result = FIT_method,len,i(objective at the shared probe vector)"""
 
@@ -277,7 +306,8 @@ def vle(job, nalgs):
             cs = leaf.conds()
             ret = UF("VLEOBJ", lift(res.alpha_12), lift(res.alpha_21), lift(res.beta_12), lift(res.beta_21), rv(res.z), nonneg=True)
             per = [UF("VLEOBJ", *[lift(v) for v in c["x"]], nonneg=True) for c in stub.calls]
-            job.prove("%s/leaf%d/returned_is_best" % (tag, got), cs, [ret > e for e in per], R_, {"entry": "vle"}, congruence=["VLEOBJ"], timeout=30)
+            job.prove("%s/leaf%d/returned_is_best" % (tag, got), cs, [ret > e for e in per], "vf.props.C16:concrete_vle", {"entry": "vle"}, fallback=[{"entry": "vle"}],
+                      congruence=["VLEOBJ"], timeout=30)
             ok = sorted(c["method"] for c in stub.calls) == sorted(algs)
             job.record("%s/leaf%d/all_methods_tried" % (tag, got), "discharged" if ok else "violated", "methods %r" % [c["method"] for c in stub.calls], nontrivial=False,
                        replay={"fn": R_, "inputs": {"entry": "vle"}})
